@@ -64,20 +64,29 @@ theorem bcIdx_eq_map_range (β s : List Nat) (h : s.length ≤ β.length) :
     have : β.length - s.length + i = i + (β.length - s.length) := by omega
     simp [this]
 
-theorem matmulBatchIdx_eq (β b : List Nat) (x y i j : Nat) (n : Nat) (hn : n = β.length + 2) (h : b.length ≤ β.length) :
-    matmulBatchIdx (β ++ [i, j]) (b ++ [x, y]) n = some (bcIdx β b) := by
+/-- batch part of a slice list for an operand of rank ≥ 2, for any tail `t` of the result index behind its batch part -/
+theorem matmulBatchIdx_eq' (β b t : List Nat) (x y : Nat) (n : Nat) (hn : n = β.length + 2) (h : b.length ≤ β.length) :
+    matmulBatchIdx (β ++ t) (b ++ [x, y]) n = some (bcIdx β b) := by
   unfold matmulBatchIdx
   have e : (b ++ [x, y]).length - 2 = b.length := by simp
   rw [e, bcIdx_eq_map_range β b h]
   apply mapM_range_some
-  intro t ht
-  have h1 : (b ++ [x, y])[t]? = some (b[t]) := by rw [List.getElem?_append_left ht]; simp
-  have h2 : (β ++ [i, j])[t + (n - (b ++ [x, y]).length)]? = some (β[t + (β.length - b.length)]'(by omega)) := by
-    have : t + (n - (b ++ [x, y]).length) = t + (β.length - b.length) := by simp; omega
+  intro u hu
+  have h1 : (b ++ [x, y])[u]? = some (b[u]) := by rw [List.getElem?_append_left hu]; simp
+  have h2 : (β ++ t)[u + (n - (b ++ [x, y]).length)]? = some (β[u + (β.length - b.length)]'(by omega)) := by
+    have : u + (n - (b ++ [x, y]).length) = u + (β.length - b.length) := by simp; omega
     rw [this, List.getElem?_append_left (by omega)]; simp
   simp only [h1, h2]
-  simp [List.getD_eq_getElem?_getD, List.getElem?_eq_getElem ht, List.getElem?_eq_getElem (show t + (β.length - b.length) < β.length by omega)]
+  simp [List.getD_eq_getElem?_getD, List.getElem?_eq_getElem hu, List.getElem?_eq_getElem (show u + (β.length - b.length) < β.length by omega)]
   split <;> rfl
+
+theorem matmulBatchIdx_eq (β b : List Nat) (x y i j : Nat) (n : Nat) (hn : n = β.length + 2) (h : b.length ≤ β.length) :
+    matmulBatchIdx (β ++ [i, j]) (b ++ [x, y]) n = some (bcIdx β b) :=
+  matmulBatchIdx_eq' β b [i, j] x y n hn h
+
+/-- a 1-d operand has no batch part -/
+theorem matmulBatchIdx_single (d : List Nat) (k n : Nat) : matmulBatchIdx d [k] n = some [] := by
+  simp [matmulBatchIdx]
 
 theorem matmulV1_elem (ba bb bs : Shape) (m k n : Nat) (hbs : broadcastShape ba bb = some bs) :
     ∃ r, matmulV1 (ba ++ [m, k]) (bb ++ [k, n]) = some r ∧ r.shape = bs ++ [m, n] ∧
@@ -92,13 +101,17 @@ theorem matmulV1_elem (ba bb bs : Shape) (m k n : Nat) (hbs : broadcastShape ba 
   refine ⟨_, rfl, rfl, ?_⟩
   intro β i j hβ
   simp only
-  have hs : matmulSlices (β ++ [i, j]) (ba ++ [m, k]) (bb ++ [k, n]) (bs ++ [m, n]) = some (bcIdx β ba, i, bcIdx β bb, j) := by
+  have hs : matmulSlices (β ++ [i, j]) (ba ++ [m, k]) (bb ++ [k, n]) (bs ++ [m, n]) =
+      some (bcIdx β ba, some i, bcIdx β bb, some j) := by
     unfold matmulSlices
-    simp only [getNeg?_append_two_2, getNeg?_append_two_1]
+    have e1 : ¬ (ba ++ [m, k]).length = 1 := by simp
+    have e2 : ¬ (bb ++ [k, n]).length = 1 := by simp
+    simp only [e1, e2, if_false, Nat.add_zero, getNeg?_append_two_2, getNeg?_append_two_1, Option.map_some]
     rw [matmulBatchIdx_eq β ba m k i j _ (by simp; omega) (by omega), matmulBatchIdx_eq β bb k n i j _ (by simp; omega) (by omega)]
     simp [hβ]
   rw [hs]
-  simp only [getNeg?_append_two_2, getNeg?_append_two_1]
+  have e2 : ¬ (bb ++ [k, n]).length = 1 := by simp
+  simp only [e2, if_false, getNeg?_append_two_2, getNeg?_append_two_1, Option.toList_some]
   simp only [mulT, bcast2, broadcastShape, List.reverse_cons, List.reverse_nil, List.nil_append, bcRev, bc1_self]
   simp only [Option.map_some, List.reverse_cons, List.reverse_nil, List.nil_append]
   rw [sumLast_one_get _ [] k rfl]
